@@ -28,10 +28,12 @@ var lenForms = []lenForm{
 	{[]byte{0x84, 0x7F, 0xFF, 0xFF, 0xFF}, 1<<31 - 1, "847FFFFFFF"},
 	{[]byte{0x84, 0x80, 0x00, 0x00, 0x00}, 1 << 31, "8480000000"},
 	{[]byte{0x84, 0xFF, 0xFF, 0xFF, 0xFF}, 1<<32 - 1, "84FFFFFFFF"},
+	// two length octets missing: the decoder takes them from what follows, i.e. a claim of about 4 GiB
+	{[]byte{0x84, 0xFF}, 1<<32 - 1, "84FF(truncated)"},
+	// not lengths at all (rejected forms): harmless at any point of the escalation
 	{[]byte{0x85, 0x01, 0x00, 0x00, 0x00, 0x00}, 0, "850100000000"},
 	{[]byte{0x88, 0x7F, 0xFF, 0xFF, 0xFF, 0xFF, 0xFF, 0xFF, 0xFF}, 0, "887FFFFFFFFFFFFFFF"},
 	{[]byte{0xFF}, 0, "FF"},
-	{[]byte{0x84, 0xFF}, 0, "84FF(truncated)"},
 }
 
 // lying sends one pattern with every length form, smallest claim first; claims of 2^28 and more are marked on disk first,
